@@ -114,6 +114,10 @@ def check(run: Run) -> None:
     got = canon(ctx.analysis(lk).return_term(), lk.pos_params)
     from ..spec import first_match_as_search
 
+    from ..lib import mentions_generator as _mg
+
+    if first_match_as_search(drop_sites(got)) != drop_sites(want) and _mg(m, got):
+        raise AnalysisError(f"lookup_name searches the frames through the generator {_mg(m, got)}(..): in which order they are tried cannot be read from this shape")
     run.check(first_match_as_search(drop_sites(got)) == drop_sites(want), "C02.R3b", lk, lk.node, "lookup_name searches frames innermost-first and falls back to the default", f"lookup_name computes {show(got)[:160]}; expected innermost-first search {show(want)[:120]}: a shadowed outer definition can win", term=show(got))
     # visit_Name == stack.lookup_name(node.id, default=node)
     from ..terms import subst
@@ -355,6 +359,10 @@ def _check_make_args_unique(run: Run, ctx, m) -> None:
     rev = contains(rt0, lambda s_: s_[0] == "app" and s_[1] == ("global", "builtins.reversed") and len(s_[2]) == 1 and _is_stack(s_[2][0]))
     fwd = contains(rt0, lambda s_: s_[0] == "elem" and _is_stack(s_[1])) or contains(rt0, lambda s_: s_[0] == "comp" and any(_is_stack(g_[0]) for g_ in s_[3]))
     ok_rev = rev and not fwd
+    from ..lib import mentions_generator as _mg2
+
+    if not ok_rev and _mg2(m, rt0):
+        raise AnalysisError(f"replace_args.visit_Name finds the renaming through the generator {_mg2(m, rt0)}(..): in which order the stack is searched cannot be read from this shape")
     run.check(ok_rev, "C02.R2", vn, loops[0] if loops else vn.node, "replace_args.visit_Name searches the stack innermost-first", "renaming lookup is not innermost-first: an inner lambda re-using an outer name is renamed with the outer mapping")
     fn = ctx.analysis(vn)
     rt = strip_sites(fn.return_term())
